@@ -8,12 +8,20 @@ BINS = {"C09": ["plain/c09", "trace/c09t"], "C08": ["plain/c08"], "C07": ["plain
         "C03": ["plain/c03"], "C02": ["plain/c02"], "C01": ["plain/c01"], "C11": ["plain/c11"], "C12": ["plain/c12"], "C19": ["plain/c19"]}
 
 def run(exe, seed, frm, stride, count):
-    p = subprocess.run([exe, "--seed", str(seed), "--from", str(frm), "--stride", str(stride), "--count", str(count), "--no-shrink", "--replay-dir", "/tmp",
-                        "--known", os.path.join(ROOT, "known_findings.json")], stdout=subprocess.PIPE, stderr=subprocess.DEVNULL, cwd=ROOT)
     out = {}
-    for line in p.stdout.decode("utf-8", "replace").splitlines():
-        if line.startswith("r "):
-            parts = line.split(); out[int(parts[1])] = (parts[2], parts[3], parts[4])
+    end = frm + stride * count
+    while frm < end:
+        p = subprocess.run([exe, "--seed", str(seed), "--from", str(frm), "--stride", str(stride), "--count", str((end - frm + stride - 1) // stride), "--no-shrink", "--replay-dir", "/tmp",
+                            "--known", os.path.join(ROOT, "known_findings.json")], stdout=subprocess.PIPE, stderr=subprocess.DEVNULL, cwd=ROOT)
+        last = None
+        for line in p.stdout.decode("utf-8", "replace").splitlines():
+            if line.startswith("r "):
+                parts = line.split(); out[int(parts[1])] = (parts[2], parts[3], parts[4])
+            elif line.startswith("b "):
+                last = int(line[2:])
+        if p.returncode == 3 and last is not None:      # an abandoned world (recorded deadlock finding): the worker asks to be restarted
+            frm = last + stride; continue
+        break
     return out
 
 def main():
